@@ -329,6 +329,73 @@ def container_use(schema, data):
     return (w, dj)
 
 
+def large_graphs(rng):
+    """acyclic repositories with many resolutions along one path of the loader's recursion: one record referring to 60
+    per-file types, a chain of 60 files, and a 30 x 2 mix (implementation-side predicates only: small types, no model term)"""
+    def leaf(i, ns):
+        k = i % 3
+        nm = {"name": "T%d" % i, **({"namespace": ns} if ns else {})}
+        if k == 0:
+            return {"type": "enum", **nm, "symbols": ["A", "B%d" % i]}
+        if k == 1:
+            return {"type": "fixed", **nm, "size": 1 + i % 4}
+        return {"type": "record", **nm, "fields": [{"name": "x", "type": "int"}]}
+    out = []
+    for ns in ("", "big.ns"):
+        q = (lambda n: ns + "." + n) if ns else (lambda n: n)
+        files = {q("Top"): {"type": "record", "name": q("Top"), "fields": [
+            {"name": "f%d" % i, "type": rng.choice(["T%d" % i, q("T%d" % i), ["null", q("T%d" % i)], {"type": "array", "items": "T%d" % i}])}
+            for i in range(60)]}}
+        for i in range(60):
+            files[q("T%d" % i)] = leaf(i, ns)
+        out.append(dict(top=q("Top"), n=61, shape="fan-out 60", files=files, order=[q("T%d" % i) for i in range(60)] + [q("Top")]))
+        files = {}
+        for i in range(60):
+            nxt = q("C%d" % (i + 1)) if i < 59 else "long"
+            files[q("C%d" % i)] = {"type": "record", "name": "C%d" % i, **({"namespace": ns} if ns else {}), "fields": [
+                {"name": "n", "type": nxt if i % 2 or nxt == "long" else ["null", nxt]}, {"name": "k", "type": "int"}]}
+        out.append(dict(top=q("C0"), n=60, shape="chain 60", files=files, order=[q("C%d" % i) for i in range(59, -1, -1)]))
+    return out
+
+
+def run_large(ctx, d, data_rng):
+    from fastavro.schema import load_schema, load_schema_ordered, parse_schema
+    for g in large_graphs(data_rng):
+        files, top = g["files"], g["top"]
+        key = ("large", g["shape"], top)
+        write_files(d, files)
+        inlined = inline_first_use(files, top)
+        named = {}
+        st2, parsed = classify(lambda: parse_schema(copy.deepcopy(inlined), named))
+        want = canon_of(parsed) if st2 == "ok" else st2
+        cs = dict(top=top, shape=g["shape"], files_json=json.dumps(files))
+        st, loaded = classify(lambda: load_schema(os.path.join(d, top + ".avsc")))
+        got = canon_of(loaded) if st == "ok" else st
+        ctx.count("pred:load-equals-inlined", key)
+        if got != want or not got.startswith("ok:"):
+            ctx.violation("pred:load-equals-inlined", cs, impl=got[:300], model=want[:300],
+                          signature="C19:load_schema:canonical-form-differs-from-inlined" if got.startswith("ok:")
+                          else "C19:load_schema:fails-on-valid-repository:" + strip_other(got).split(":")[0])
+        sto, lo = classify(lambda: load_schema_ordered([os.path.join(d, n + ".avsc") for n in g["order"]]))
+        goto = canon_of(lo) if sto == "ok" else sto
+        ctx.count("pred:ordered-equals-inlined", key)
+        if goto != want:
+            ctx.violation("pred:ordered-equals-inlined", dict(cs, order=g["order"]), impl=goto[:300], model=want[:300],
+                          signature="C19:load_schema_ordered:" + ("canonical-form-differs-from-inlined" if goto.startswith("ok:")
+                                                                 else "fails:" + strip_other(goto).split(":")[0]))
+        if st == "ok" and st2 == "ok":
+            try:
+                datum = gen.DataGen(data_rng, dict(named), hints=False).datum(parsed)
+            except Exception:
+                datum = None
+            if datum is not None:
+                ctx.count("pred:load-encoding", (key, "datum"))
+                e1, e2 = encode(loaded, datum), encode(parsed, datum)
+                if e1 != e2:
+                    ctx.violation("pred:load-encoding", dict(cs, datum=repr(datum)[:300]), impl=e1, model=e2,
+                                  signature="C19:load_schema:encoding-differs-from-inlined")
+
+
 def case(g, **kw):
     return dict(top=g["top"], files=g["files"], files_json=json.dumps(g["files"]), deps=g["deps"], **kw)
 
@@ -573,6 +640,7 @@ def run(ctx):
                 if strip_other(r) != mm:
                     ctx.violation("corr:load-missing", case(g, removed=name), impl=r, model=mm,
                                   signature="C19:load_schema:missing-file:differs-from-model", found_input=False)
+        run_large(ctx, d, rng)
         ctx.notes["graph_sizes"] = hist
         ctx.sample(dict(top=graphs[3]["top"], files=graphs[3]["files"]))
     finally:
